@@ -42,8 +42,14 @@ Judge(rec) ==
             <<"response_lossless", rec.res = "ok" => rec.returned = "same">>,
             <<"request_framing_headers", FramingHeadersOK(rec.req_te, rec.req_cl, rec.req_len)>>,
             <<"response_framing_headers", rec.res = "ok" => FramingHeadersOK(rec.resp_te, rec.resp_cl, rec.resp_len)>>,
-            <<"request_framing_valid", rec.req_te => ValidChunked(rec.req_stream)>>,
-            <<"response_framing_valid", rec.resp_te => ValidChunked(rec.resp_stream)>> >>
+            \* streams with more chunks than TLC's stack allows are judged by the python mirror of Parse
+            <<"request_framing_valid", rec.req_te => (IF rec.req_judge = "tlc" THEN ValidChunked(rec.req_stream)
+                                                                              ELSE rec.req_pyvalid)>>,
+            <<"response_framing_valid", rec.resp_te => (IF rec.resp_judge = "tlc" THEN ValidChunked(rec.resp_stream)
+                                                                                ELSE rec.resp_pyvalid)>>,
+            <<"harness_parser_agrees",
+              /\ (rec.req_te /\ rec.req_judge = "tlc") => (rec.req_pyvalid = ValidChunked(rec.req_stream))
+              /\ (rec.resp_te /\ rec.resp_judge = "tlc") => (rec.resp_pyvalid = ValidChunked(rec.resp_stream))>> >>
     [] rec.kind = "coding" ->
          << <<"coding:" \o rec.damage \o ":" \o ExpectedCoding(rec, Registered),
               CodingOutcomeOK(ExpectedCoding(rec, Registered), rec.actual)>> >>
